@@ -37,10 +37,10 @@ func checkC01(c *Ctx) {
 		"(R1a/R1b) io.Reader contract at every Read of the input: the count is consumed independently of the error (also when the error is tested through a helper predicate), the Read sits in a loop that is never left because one Read was short or empty — neither directly nor through an error manufactured under a test of a single Read's count (a 'no progress' / stall guard counting zero-length reads, consecutive or not: the statement quantifies over all read-size sequences including zero-length reads). (R1c) the segment fill loop is left only when the accumulated count reached the fill limit or an error was seen, reads at most up to that limit, and the limit is the README's segment size (+ tag size under Decrypt) + 1 look-ahead byte. (R1d) the header reader returns a nil error, not the last Read's, with a completely parsed header. " +
 		"(R5) the values that reach the nonce and the AEAD: last <=> 'count did not reach the limit' (symbolic evaluation over phis, return values and branch facts; decided from the Read error or another threshold = violation), data length = count-1 with look-ahead / count without, starting at the start of the fill buffer, the look-ahead byte buffer[count-1] is what is put back at the start of the buffer (indexed store, or copy() from where it was kept) under a flag / length that can be set, with the count restarting at 1 (or at copy's result), counter 0,+1 (loop-carried or kept in a variable / field, incremented after the operation), nothing is processed after last; (R6) a zero-length test of the data dominates the segment operation and some zero-length test in the driver loop has an empty side that reaches a clean Close. " +
 		"(R2) id/name tables (conditional constant propagation through switch / if / map-table / literal-slice loop / slices.Contains / table-index forms): README ids <-> NewXFromID/ID/Validate, every accepted name survives Validate->ID->FromID->Validate, JSON (un)marshal goes through the tables, the AEAD constructor per accepted cipher, Manifest JSON tags. " +
-		"(R3) spec constants; nonce layout (12 bytes = 7-byte prefix || big-endian uint32 || last flag) in whichever function(s) build the nonce; for each direction the HKDF call whose output is the HMAC key / the AEAD key has the README's info and salt (salt origin = origin of the nonce prefix) and the wrapped / unwrapped file key as input; HMAC-SHA-256; standard base64; fresh key 32 bytes, prefix 7; header = MACed message || base64(MAC) || LF (make+copy+Encode or append/AppendEncode/Join/Concat forms); pooled buffer >= largest fill limit. " +
+		"(R3) spec constants; nonce layout (12 bytes = 7-byte prefix || big-endian uint32 || last flag) in whichever function builds the nonce, whether it writes a buffer in place (copy, PutUint32, indexed store), grows a slice (append, AppendUint32) or does both; for each direction the HKDF call whose output is the HMAC key / the AEAD key has the README's info and salt (salt origin = origin of the nonce prefix) and the wrapped / unwrapped file key as input; HMAC-SHA-256; standard base64; fresh key 32 bytes, prefix 7; header = MACed message || base64(MAC) || LF (make+copy+Encode or append/AppendEncode/Join/Concat forms); pooled buffer >= largest fill limit. " +
 		"(R4) no AAD; the MACed message is scheme line, LF, manifest, LF (Encrypt: json.Marshal output; Decrypt: the bytes exactly as read, never re-encoded); the size limit the header writer enforces covers the complete header and does not exceed what the header reader scans. (R7) the bytes read past the header are copied out of the pooled buffer and put, in front of the rest, into the stream variable the segment phase reads. Every path from a header Read to the segment phase (helper results correlated with the caller's error tests) performs that push-back or has established count <= end-of-header; an early success return that skips both (e.g. when the last header Read carried io.EOF) is a violation; a guard around the push-back that is an opaque flag gives UNDECIDED. (R8) Manifest fields at the point of marshalling originate in the cipher that selects the AEAD, the prefix copied into the nonces, WrapKeyFn's result and algorithm argument, with the documented key-name precedence; Decrypt feeds UnwrapKeyFn / nonce / AEAD selection from the manifest's fields; the signed header is written before the segment loop. " +
 		"(R9) none of the places that overwrite a byte slice (clear, copy into, element store, the destination of io.ReadFull / rand.Read / subtle / binary / base64 / AEAD calls — also in deferred calls) can reach a slice returned by the caller's WrapKeyFn / UnwrapKeyFn: such a function may keep what it returns (a key cache), so wiping it breaks every later use of that key; working on a copy is fine (copies made by bytes.Clone / append / make+copy carry the origin of their content for the key-derivation rules). " +
-		"NOT decided: byte-for-byte round-trip equality; correctness of AEAD/HKDF/HMAC/JSON/base64 themselves (trusted libraries); the header line scanner's index arithmetic; consumer-side chunking (delegated to io.Pipe); behaviour on source errors and tampering (C02); that WrapKeyFn/UnwrapKeyFn are inverse. Shapes the engine cannot classify (state kept in a way that is neither SSA-, cell- nor field-resolvable, values stored through a pointer kept in an array element, reads through io.ReadFull or bufio, a nonce not built by copy+PutUint32+indexed store, a header written in several Write calls, tables computed by generics other than slices.Contains/Index) give UNDECIDED, never VIOLATION."
+		"NOT decided: byte-for-byte round-trip equality; correctness of AEAD/HKDF/HMAC/JSON/base64 themselves (trusted libraries); the header line scanner's index arithmetic; consumer-side chunking (delegated to io.Pipe); behaviour on source errors and tampering (C02); that WrapKeyFn/UnwrapKeyFn are inverse. Shapes the engine cannot classify (state kept in a way that is neither SSA-, cell- nor field-resolvable, values stored through a pointer kept in an array element, reads through io.ReadFull or bufio, a nonce assembled by other means than in-place writes and append forms within one function, or whose opening bytes are not identified, a header written in several Write calls, tables computed by generics other than slices.Contains/Index) give UNDECIDED, never VIOLATION."
 	r.Assumptions = append(r.Assumptions,
 		"io.Reader implementations obey the documented contract (0 <= n <= len(p); n bytes valid even when err != nil; (0,nil) allowed)",
 		"crypto/cipher.NewGCM and chacha20poly1305.New give 12-byte-nonce, 16-byte-tag AEADs; hkdf.New(hash, secret, salt, info) and hmac.New(hash,key) have their documented meaning; encoding/json encodes []byte as standard padded base64",
